@@ -50,7 +50,7 @@ def hostile_surface(entries, tracks=40, spt=10):
     es = []
     pos = 2
     for nm, d, ln in entries:
-        es.append(disc.Entry(nm, bytes([d]), False, 0x1900, 0x8023, ln, pos))
+        es.append(disc.Entry(nm, bytes([d & 0x7F]), bool(d & 0x80), 0x1900, 0x8023, ln, pos))   # bit 7 of the directory byte = lock flag
         pos += max(1, (ln + 255) // 256)
     es.reverse()
     return disc.acorn_surface(disc.Volume(es, b'HOSTILE'), tracks * spt, b'h')
@@ -189,6 +189,15 @@ def fam_names(tier):
         for t in itertools.product(ALPHA, repeat=k):
             names.append(bytes(t))
     names += HAND
+    # the catalogue stores 8-bit bytes; the tool masks bit 7 when it builds host names, so every hostile name
+    # also comes with bit 7 set on all bytes, on the '/' only, and on everything but the '/'
+    hi = []
+    for nm in names:
+        if b'/' in nm or b'.' in nm:
+            hi.append(bytes(b | 0x80 for b in nm))
+            hi.append(bytes((b | 0x80) if b == 0x2F else b for b in nm))
+            hi.append(bytes(b if b == 0x2F else (b | 0x80) for b in nm))
+    names += sorted(set(hi) - set(names))
     dests = ['dest', 'dest/', './dest', '@ROOT@/dest']
     for nm in names:
         for cur in ('$', 'X'):
@@ -202,9 +211,9 @@ def fam_names(tier):
 
 def fam_dirs(tier):
     """directory byte every value 0x01-0x7F x names {x, ., /x, ./x, .., a/a} x --dir {$, same byte when printable}"""
-    for d in range(1, 128):
+    for d in list(range(1, 128)) + [0xAF, 0xAE]:
         for nm in (b'x', b'.', b'/x', b'./x', b'..', b'a/a', b'./cana'):
-            for cur in ('$', chr(d) if 0x21 <= d < 0x7F else 'Q'):
+            for cur in ('$', chr(d & 0x7F) if 0x21 <= (d & 0x7F) < 0x7F else 'Q'):
                 yield {'w': 'extract', 'cmd': 'extract-files', 'entries': [[nm.hex(), d, 100]], 'cur': cur,
                        'dest': 'dest' if d % 2 else 'dest/'}
 
